@@ -80,6 +80,11 @@ def run(chk: common.Check, tier: str):
                "soft: \"COMMENT\" | NUMBER\n", ["AT"], ["COMMENT"],
                {"AT\n": False, "COMMENT\n": True, "COMMENT 1\n": True, "AT 1\n": False, "1 AT COMMENT\n": True, "1 AT 2\n": True,
                 "1 x COMMENT\n": False})]
+    # the primitives OP / STRING / NUMBER match by KIND: text that merely looks like an operator (the literal part of an
+    # f-string) is not an OP
+    probes.append(("start: FSTRING_START OP FSTRING_END NEWLINE | NAME OP NAME NEWLINE | STRING NUMBER NEWLINE\n", [], [],
+                   {"f'='\n": False, "f'+'\n": False, "f'->'\n": False, "a + b\n": True, "a -> b\n": True, "a b c\n": False,
+                    "'s' 1\n": True, "s 1\n": False, "'s' x\n": False}))
     pres = rm.run_traced([{"grammar": g, "inputs": list(exp), "configs": ["q1"]} for g, _, _, exp in probes])
     for (g, kws, softs, exp), rj in zip(probes, pres):
         chk.count()
